@@ -130,3 +130,45 @@ CLAUSES.append(
     Clause("deep_closure", deep_cases, run_deep, quick=4, thorough=40, watchdog=300,
            rule="family a^n b (n in 1001..1998, states renamed) whose accepting run needs an eps-closure of n+2 configurations x limits around and above "
                 "the default 1000 ({n+2, n+3, 2000, 4000, 1000, 500}); reference: configuration search (exact for this family); every case is non-trivial"))
+
+
+# ---- long words on structured automata (tall stacks next to short ones) ----
+
+def run_long(case):
+    spec, limit = case["pda"], case["limit"]
+    P = BP.mk_pda(spec)
+    old = GambaTools.pda_epsilon_closure_max_iterations
+    GambaTools.pda_epsilon_closure_max_iterations = limit
+    acc = 0
+    try:
+        for w in case["words"]:
+            w = "".join(c for c in w if c in spec["S"])
+            want = RP.accepts(spec, w)
+            got = lib(pda_accepts_word, P, w)
+            if got is True and not want:
+                raise Fail("unsound_long", "pda_accepts_word accepts %r (length %d) with limit %d without an accepting computation" % (w, len(w), limit), word=w)
+            sizes = RP.closure_sizes(spec, w, limit)
+            if want and all(s <= limit for s in sizes):
+                acc += 1
+                if got is not True:
+                    raise Fail("incomplete_long", "pda_accepts_word(%r) (length %d) = %r with limit %d although an accepting computation exists and the largest closure has %d configurations"
+                               % (w, len(w), got, limit, max(sizes)), word=w)
+    finally:
+        GambaTools.pda_epsilon_closure_max_iterations = old
+    return {"nt": acc >= 1, "cls": ["accepted_long_words_%d" % min(acc, 3)], "out": {"words": case["words"][:3], "limit": limit}}
+
+
+@st.composite
+def long_cases(draw, tier):
+    spec = draw(GP.structured_pda_specs(max_noise=1))
+    n = draw(st.integers(5, 13 if tier == "quick" else 16))
+    m = draw(st.integers(0, n))
+    shaped = ["a" * n + "b" * n, "a" * n + "b", "a" * n + "b" * m, "a" * n + "bb", ("ab" * n)[:n] + ("ab" * n)[:n][::-1], "a" * n, "b" + "a" * n]
+    extra = draw(st.lists(st.text(alphabet="ab", min_size=6, max_size=12), max_size=2))
+    return {"pda": spec, "words": shaped + extra, "limit": draw(st.sampled_from([1000, 60, 200]))}
+
+
+CLAUSES.append(
+    Clause("long_words", long_cases, run_long, quick=60, thorough=600, watchdog=300,
+           rule="structured PDAs (templates with one noise transition, renamed) x words of length 6..28 shaped like a^n b^n, a^n b, a^n b^m, palindromes, plus random "
+                "words x limits {60, 200, 1000}; sound always, complete when the closures stay within the limit; non-trivial: a long word accepted within the limit"))
